@@ -423,8 +423,9 @@ func (p *parser) countCaptures() error {
 						p.moveRight(1)
 						ch = p.rightChar(0)
 
-						if ch != '0' && p.isGroupNameStartChar(ch) {
-							if ch >= '1' && ch <= '9' && !p.useOptionE() {
+						// (a number may be written with leading zeros: it is the same number)
+						if (ch != '0' || !p.useOptionE()) && p.isGroupNameStartChar(ch) {
+							if ch >= '0' && ch <= '9' && !p.useOptionE() {
 								dec, err := p.scanDecimal()
 								if err != nil {
 									return err
